@@ -27,6 +27,18 @@ fn list_json(ml: &MorphemeList<Rc<JapaneseDictionary>>) -> Vec<Value> {
 
 /// a freshly created tokenizer with the same mode and the same field request
 fn fresh(dict: &Rc<JapaneseDictionary>, mode: Mode, req: Option<u32>, text: &str) -> Value {
+    // with the default field request the twin is, every other time, the stateless API (Tokenize::tokenize), which
+    // builds its own tokenizer per call: the two public entry points must agree
+    if req.is_none() && text.len() % 2 == 0 {
+        use sudachi::analysis::stateless_tokenizer::StatelessTokenizer;
+        use sudachi::analysis::Tokenize;
+        let r = catch(std::panic::AssertUnwindSafe(|| -> Result<Vec<Value>, String> {
+            let st = StatelessTokenizer::new(dict.clone());
+            let ml = st.tokenize(text, mode, false).map_err(|e| format!("{:?}", e))?;
+            Ok(list_json(&ml))
+        }));
+        return match r { Ok(Ok(v)) => json!({"res": "ok", "ms": v, "api": "stateless"}), Ok(Err(_)) => json!({"res": "err", "api": "stateless"}), Err(m) => json!({"res": "panic", "msg": m, "api": "stateless"}) };
+    }
     let r = catch(std::panic::AssertUnwindSafe(|| -> Result<Vec<Value>, String> {
         let mut t = StatefulTokenizer::new(dict.clone(), mode);
         if let Some(bits) = req { t.set_subset(InfoSubset::from_bits_truncate(bits)); }
